@@ -6,6 +6,9 @@ CONSTANTS
   Topos <- ToposAll
   Strict = TRUE
   Breaker = TRUE
+  RejectKinds = {"open", "limit"}
+  CancelSet <- CancelSim
+  CtxKinds = {"cancel", "deadline"}
   KeepSeen = TRUE
   BudgetSet = {1, 2, 3, 4, 6, 9, 40}
 INVARIANT TypeOK
